@@ -55,14 +55,19 @@ def _like(value, items):
 
 def _sorted(keys):
     """
-    sorted(keys), also when the keys are of types that cannot be compared with one another: these are sorted by type first
+    sorted(keys), also when the keys are of types that cannot be compared with one another: these are sorted by type first.
+    Keys that cannot be ordered even then (tuples of mixed content) are returned in the order given.
     
     >>> assert _sorted(['b', 1, 'a', None, 0]) == [None, 0, 1, 'a', 'b']
+    >>> assert _sorted([(1, 'a'), ('a', 1)]) == [(1, 'a'), ('a', 1)]
     """
     try:
         return sorted(keys)
     except TypeError:
-        return sorted(keys, key = lambda key: (type(key).__name__, key))
+        try:
+            return sorted(keys, key = lambda key: (type(key).__name__, key))
+        except TypeError:
+            return list(keys)
 
 
 def _item_by_key(value, key, keys, i = None):
